@@ -31,9 +31,25 @@ SCORERS = {
     "ChangeScore(GaussianCovCost)": ({"cls": "ChangeScore", "cost": {"cls": "GaussianCovCost"}}, 3, {"permute", "shift", "scale", "reverse"}),
     "LocalAnomalyScore(L2Cost)": ({"cls": "LocalAnomalyScore", "cost": {"cls": "L2Cost"}}, 4, {"permute", "shift", "reverse"}),
     "LocalAnomalyScore(GaussianVarCost)": ({"cls": "LocalAnomalyScore", "cost": {"cls": "GaussianVarCost"}}, 4, {"permute", "shift", "scale", "reverse"}),
+    # a fixed mean vector and a fixed NON-diagonal covariance (AR(1) correlations 0.5^|i-j|, standard deviations 1, 1.5, 2 ...): under a
+    # permutation of the columns the parameters are permuted alike (see scorer_spec)
+    "GaussianCovCost(fixed)": ({"cls": "GaussianCovCost", "param": {"tuple": [0.0, 1.0]}}, 2, {"permute", "reverse"}),
     "L2Saving": ({"cls": "L2Saving"}, 2, {"permute", "reverse"}),
     "Saving(L2Cost(0))": ({"cls": "Saving", "baseline_cost": {"cls": "L2Cost", "param": 0.0}}, 2, {"permute", "reverse"}),
 }
+
+
+def scorer_spec(name, p, t=None):
+    """The spec of scorer `name` for p columns - for the data transformed by t, if given (fixed vector parameters follow the columns)."""
+    if name != "GaussianCovCost(fixed)":
+        return SCORERS[name][0]
+    idx = np.arange(p)
+    mean, sd = 0.25 * (1 + idx), 1.0 + 0.5 * idx
+    cov = 0.5 ** np.abs(idx[:, None] - idx[None, :]) * np.outer(sd, sd)
+    if t is not None and t["kind"] == "permute":
+        perm = list(t["perm"])
+        mean, cov = mean[perm], cov[np.ix_(perm, perm)]
+    return {"cls": "GaussianCovCost", "param": {"tuple": [{"array": mean.tolist()}, {"array": cov.tolist()}]}}
 
 
 @st.composite
@@ -131,6 +147,8 @@ def _tolerance_one(name, X, cuts, n):
     """Tolerance contribution of one data set, from its own magnitude and its own smallest slice variance."""
     M = max(D.max_abs(X.tolist()), 1e-300)
     B = ref.error_bound(n, M)
+    if name == "GaussianCovCost(fixed)":
+        return 64 * X.shape[1] ** 2 * B  # a quadratic form with fixed, well-conditioned coefficients: nothing degenerates
     if "Gaussian" in name:
         mv = "Cov" in name
         vmin = min_slice_variance(X, cuts, mv)
@@ -155,10 +173,13 @@ def scorer_tolerance(name, X, Xt, cuts, cuts_t, n):
 
 def check_scorer(case):
     name = case["scorer"]
-    spec, k, _ = SCORERS[name]
+    _, k, _ = SCORERS[name]
     X = np.asarray(case["X"], dtype=float)
     n, p = X.shape
     t = case["t"]
+    spec, spec_t = scorer_spec(name, p), scorer_spec(name, p, t)
+    if spec_t != spec:
+        case = dict(case, same_object_view=False)  # (one object cannot hold both parameter orders)
     Xt = apply_transformation(X, t)
     cuts = np.asarray(case["cuts"], dtype=np.int64)
     cuts_t = np.asarray([mirror_cut(c, n) for c in case["cuts"]], dtype=np.int64) if t["kind"] == "reverse" else cuts
@@ -181,7 +202,7 @@ def check_scorer(case):
         # near-degenerate cases have been skipped above: the two runs must both score or both raise
         Xo = X.astype(np.dtype(case["int_original"])) if case.get("int_original") else X
         ra = evaluated(lambda: np.asarray(K.build(spec).fit(Xo).evaluate(cuts), dtype=float))
-        rb = evaluated(lambda: np.asarray(K.build(spec).fit(Xt).evaluate(cuts_t), dtype=float))
+        rb = evaluated(lambda: np.asarray(K.build(spec_t).fit(Xt).evaluate(cuts_t), dtype=float))
         if ra[0] != rb[0]:
             raise Violation(f"the {t['kind']}-transformed data are scored although the original raises the not-positive-definite error, "
                             "or the other way round", scorer=name, transformation=t, original=ra[0], transformed=rb[0])
